@@ -69,6 +69,7 @@ type schedEngine struct {
 	byGid    map[uint64]*schedThr
 	adopt    *schedThr // an unknown goroutine reaching Run.enter becomes this thread
 	free     atomic.Bool
+	tearing  atomic.Bool
 	rec      func(t *schedThr, name string)
 	watchdog time.Duration
 	family   string
@@ -155,6 +156,9 @@ func (e *schedEngine) lostSig() string {
 
 // runEnded is called when a Run of the root VM has returned
 func (e *schedEngine) runEnded(err error, known bool, input string) {
+	if e.tearing.Load() {
+		return
+	}
 	e.nRuns++
 	if e.armed && e.extra > 1 {
 		e.bad = append(e.bad, PropViolation{Property: "C09", Sig: e.lostSig(), Input: input,
@@ -300,7 +304,9 @@ func schedScenarioList(thorough bool) []*schedScenario {
 		l = append(l,
 			&schedScenario{name: "invoke-3", family: "run", script: "f := func() { return 1 }; cb(f); return 2", cbOps: "aiiir", runs: 1},
 			&schedScenario{name: "invoke-reacquire", family: "run", script: "f := func() { x := 1; return x }; cb(f); return 2", cbOps: "airair", runs: 1},
-			&schedScenario{name: "invoke-twice", family: "run", script: "f := func() { return 1 }; cb(f); cb(f); return 2", cbOps: "ai", runs: 1},
+			// (at most one child is registered at any time: with two, the order in which
+			// `range v.vms` visits them is Go map order and the trace is not determined)
+			&schedScenario{name: "invoke-twice", family: "run", script: "f := func() { return 1 }; cb(f); cb(f); return 2", cbOps: "air", runs: 1},
 			&schedScenario{name: "eval-long", family: "eval", script: "x := 0; x = x + 1; x = x + 1; x = x + 1; return x", runs: 1},
 		)
 	}
@@ -343,6 +349,11 @@ func (sc *schedScenario) execute(dirs []string, watchdog time.Duration, calibrat
 			}
 		}
 	}
+	if sc.family == "run" {
+		e.ab = C
+	} else {
+		e.adopt, e.ab = R, E
+	}
 	ugo.VerifSetSyncHook(e.hook)
 	defer ugo.VerifSetSyncHook(nil)
 
@@ -383,13 +394,14 @@ func (sc *schedScenario) execute(dirs []string, watchdog time.Duration, calibrat
 			panic(err)
 		}
 		vm := ugo.NewVM(bc)
-		e.ab = C
 		go func() {
 			e.register(R)
 			e.park(R, "end")
 			for i := 0; i < sc.runs; i++ {
 				_, err := vm.Run(globals)
-				results = append(results, outcomeChar(err))
+				if !e.tearing.Load() {
+					results = append(results, outcomeChar(err))
+				}
 				e.runEnded(err, true, input)
 				e.park(R, "end")
 			}
@@ -414,16 +426,16 @@ func (sc *schedScenario) execute(dirs []string, watchdog time.Duration, calibrat
 		defer cf()
 		cancel = cf
 		vmAborted = ev.VM.Aborted
-		e.adopt = R
-		e.ab = E
 		go func() {
 			e.register(E)
 			_, _, err := ev.Run(ctx, []byte(sc.script))
-			evalRes = "ok"
-			if err != nil {
-				evalRes = "err"
+			if !e.tearing.Load() {
+				evalRes = "ok"
+				if err != nil {
+					evalRes = "err"
+				}
 			}
-			if R.gid != 0 || R.fin || calibrate {
+			if (R.gid != 0 || R.fin || calibrate) && !e.tearing.Load() {
 				// the result of the inner Run as far as Eval.run lets it through
 				if errors.Is(err, ugo.ErrVMAborted) {
 					results = append(results, "a")
@@ -536,19 +548,47 @@ func (sc *schedScenario) execute(dirs []string, watchdog time.Duration, calibrat
 		}
 		obs = append(obs, string(d[0])+":"+strings.Join(names, ","))
 	}
-	// teardown: let whatever is still parked run to its end
+	resStr := fmt.Sprintf("%s;res=%s;eval=%s;extra=%d", strings.Join(obs, "|"), strings.Join(results, ""), evalRes, e.totalExtra)
+	// teardown: let whatever is still parked run to its end (no longer observed)
+	e.tearing.Store(true)
 	quit.Store(true)
 	e.free.Store(true)
 	cancel()
-	for _, t := range []*schedThr{R, C, E} {
-		if !t.fin && !t.released && t.gid != 0 {
+	for _, t := range startup {
+		if !t.fin && !t.released {
 			select {
 			case t.gate <- struct{}{}:
 			case <-time.After(time.Millisecond):
 			}
 		}
 	}
-	return fmt.Sprintf("%s;res=%s;eval=%s;extra=%d", strings.Join(obs, "|"), strings.Join(results, ""), evalRes, e.totalExtra), e, nil
+	if R.adopted && !R.released {
+		select {
+		case R.gate <- struct{}{}:
+		case <-time.After(time.Millisecond):
+		}
+	}
+	// wait until the harness' own goroutines are gone, so that none of them reaches a sync
+	// point of the next schedule's engine
+	for _, t := range startup {
+		dl := time.After(2 * time.Second)
+		for !t.fin {
+			select {
+			case h := <-t.ev:
+				if h == "fin" {
+					t.fin = true
+				} else {
+					select {
+					case t.gate <- struct{}{}:
+					default:
+					}
+				}
+			case <-dl:
+				t.fin = true
+			}
+		}
+	}
+	return resStr, e, nil
 }
 
 // calibrate derives the abstract instruction stream of the scenario from an undisturbed run
